@@ -671,10 +671,24 @@ func EncodeBlockPacket(w *W, code int, b *Block, rev int, method byte) error {
 	if err := EncodeBlock(&inner, rev, b); err != nil {
 		return err
 	}
-	f, err := EncodeFrame(method, inner.B)
-	if err != nil {
-		return err
+	// A server emits a frame whenever its compression buffer fills, wherever
+	// that falls in the block: FrameChunk > 0 splits the payload that way.
+	payload := inner.B
+	for first := true; first || len(payload) > 0; first = false {
+		n := len(payload)
+		if FrameChunk > 0 && n > FrameChunk {
+			n = FrameChunk
+		}
+		f, err := EncodeFrame(method, payload[:n])
+		if err != nil {
+			return err
+		}
+		w.Raw(f)
+		payload = payload[n:]
 	}
-	w.Raw(f)
 	return nil
 }
+
+// FrameChunk is the maximum payload per compressed frame the reference server
+// produces (0: one frame per block). Set per scenario by the generators.
+var FrameChunk int
